@@ -276,3 +276,5 @@ def run(ctx):
     from rules import c16_bounds
     c16_bounds.run(ctx, crate)
     ctx.not_decided("that the tabulated limits and the linear/parabolic envelopes of ConstantsC2V are upper bounds of real cell sizes (spherical trigonometry); largest_center_to_vertex_distance*")
+    from rules import controls as _controls
+    _controls.feval_controls(ctx)
